@@ -170,6 +170,53 @@ pub fn run(run: &mut Run) {
         }
     }
 
+    // ---- chains whose operands differ widely in size (1, 5, 35 and 71 AST nodes): source order
+    //      must not depend on how big an operand is
+    run.sub("chains-sized-operands");
+    {
+        let sizes = [0usize, 2, 17, 35];
+        for op in ["&&", "||"] {
+            for len in 2..=4usize {
+                let total = sizes.len().pow(len as u32);
+                for code in 0..total {
+                    if !run.take() {
+                        continue;
+                    }
+                    let mut c = code;
+                    let mut parts: Vec<String> = vec![];
+                    for k in 0..len {
+                        let extra = sizes[c % sizes.len()];
+                        c /= sizes.len();
+                        // v<k> + 1 + 1 + ... (extra additions), parenthesised
+                        let mut t = format!("v{}", k);
+                        for _ in 0..extra {
+                            t.push_str(" + 1");
+                        }
+                        parts.push(if extra > 0 { format!("({} > 0)", t) } else { t });
+                    }
+                    let src = parts.join(&format!(" {} ", op));
+                    let exp_terms: Result<Vec<N>, String> = parts.iter().map(|p| parse(p)).collect();
+                    let got = parse(&src);
+                    run.trans(1 + len as u64);
+                    run.validated();
+                    run.nontrivial();
+                    let ok = match (&exp_terms, &got) {
+                        (Ok(terms), Ok(g)) => *g == N::Call(crate::gast::op_function(op).into(), None, terms.clone()),
+                        _ => false,
+                    };
+                    run.class(&format!("chain-sized:{}:{}", op, if ok { "same" } else { "DIFF" }), || json!({"src": src}));
+                    if !ok {
+                        run.fail(
+                            &format!("C04|chain-sized-operands|{}|{}", op, outcome_tag(&got)),
+                            format!("`{}`: operands are not in source order: {}", &src[..src.len().min(120)], match &got { Ok(n) => n.show().chars().take(200).collect::<String>(), Err(e) => e.clone() }),
+                            json!({"src": src}),
+                        );
+                    }
+                }
+            }
+        }
+    }
+
     // ---- prefix runs: an even number cancels
     run.sub("prefix-runs");
     for (op, fname) in [("!", "!_"), ("-", "-_")] {
